@@ -34,7 +34,7 @@ type pkg struct {
 	reset    func(mode string)
 	entries  func() []entry
 	fn       func(i int) (string, any)
-	closure  func() any
+	closure  func(tag string) any
 	register func(e types.EnvType, fn any, override string, bounds ...int)
 	sentinel error
 	ctxKey   any
@@ -77,13 +77,23 @@ type Case struct {
 	Mode     string // ok err valerr panic-err panic-val
 	Args     []val.V
 	ArgFn    []bool // argument i is a lisp function value instead of Args[i]
+	// registrations of the same function (for the closure: another instance of the same literal) made
+	// earlier in the process; they must not influence this one
+	Prior []PriorReg `json:",omitempty"`
+}
+
+type PriorReg struct {
+	Override string
+	Bounds   []int
+	SameEnv  bool // into the same environment (re-bound afterwards when the name is the same) instead of another one
+	Call     bool // the earlier registration is also called once with the same arguments
 }
 
 var dataOpts = gen.Opts{Str: gen.StrPlain, SmallInt: true, Syms: true}
 
 func sig(p *pkg, c Case) (name string, fn any, ft reflect.Type, hasCtx bool, fixed int, variadic bool) {
 	if c.Fn < 0 {
-		name, fn = "closure", p.closure()
+		name, fn = "closure", p.closure("main")
 	} else {
 		name, fn = p.fn(c.Fn)
 	}
@@ -137,6 +147,24 @@ func genCase(t *rapid.T) Case {
 	n := lo - 1 + gen.Uniform(t, "nargs", hi-lo+4)
 	if n < 0 {
 		n = 0
+	}
+	if gen.Chance(t, "hasprior", 3) {
+		for k, m := 0, 1+gen.Uniform(t, "nprior", 2); k < m; k++ {
+			pr := PriorReg{Override: c.Override, SameEnv: gen.Chance(t, "priorsameenv", 3), Call: gen.Chance(t, "priorcall", 2)}
+			if c.Fn < 0 || gen.Chance(t, "priorname", 3) {
+				pr.Override = rapid.SampledFrom([]string{"over!", "my-fn", "x?"}).Draw(t, "prioroverride")
+			}
+			if variadic {
+				switch gen.Uniform(t, "priorbounds", 3) {
+				case 0:
+					pr.Bounds = []int{fixed + gen.Uniform(t, "pmin", 3)}
+				case 1:
+					min := fixed + gen.Uniform(t, "pmin", 3)
+					pr.Bounds = []int{min, min + gen.Uniform(t, "pspan", 3)}
+				}
+			}
+			c.Prior = append(c.Prior, pr)
+		}
 	}
 	for i := 0; i < n; i++ {
 		switch gen.Uniform(t, "argkind", 10) {
@@ -200,7 +228,10 @@ func check(c Case) pbt.Verdict {
 	box.Silence()
 	p := pkgs[c.Pkg]
 	goName, fn, ft, hasCtx, fixed, variadic := sig(p, c)
-	v := pbt.Verdict{Key: fmt.Sprintf("%s|%d|%s|%v|%s|%d|%v", c.Pkg, c.Fn, c.Override, c.Bounds, c.Mode, len(c.Args), argKinds(c))}
+	v := pbt.Verdict{Key: fmt.Sprintf("%s|%d|%s|%v|%s|%d|%v|%v", c.Pkg, c.Fn, c.Override, c.Bounds, c.Mode, len(c.Args), argKinds(c), c.Prior)}
+	if len(c.Prior) > 0 {
+		v.Labels = append(v.Labels, "after-earlier-registrations")
+	}
 	e := env.NewEnv()
 
 	// --- registration ---
@@ -222,6 +253,48 @@ func check(c Case) pbt.Verdict {
 	name := c.Override
 	if name == "" {
 		name = lispName(goName)
+	}
+	// the call, built from Go without positions
+	mkForm := func(head string) []types.MalType {
+		form := []types.MalType{types.Symbol{Val: head}}
+		for i, a := range c.Args {
+			if c.ArgFn[i] {
+				form = append(form, types.List{Val: []types.MalType{types.Symbol{Val: "fn"}, types.List{Val: []types.MalType{types.Symbol{Val: "x"}}}, types.Symbol{Val: "x"}}})
+				continue
+			}
+			switch a.K {
+			case val.Sym, val.List, val.Vec, val.Map:
+				form = append(form, types.List{Val: []types.MalType{types.Symbol{Val: "quote"}, val.To(a)}})
+			default:
+				form = append(form, val.To(a))
+			}
+		}
+		return form
+	}
+	for _, pr := range c.Prior {
+		pe := types.EnvType(e)
+		if !pr.SameEnv {
+			pe = env.NewEnv()
+		}
+		pfn := fn
+		if c.Fn < 0 {
+			pfn = p.closure("earlier")
+			if pr.Override == "" {
+				pr.Override = "closure!"
+			}
+		}
+		pname := pr.Override
+		if pname == "" {
+			pname = lispName(goName)
+		}
+		func() {
+			defer func() { recover() }()
+			p.register(pe, pfn, pr.Override, pr.Bounds...)
+			if pr.Call {
+				p.reset("ok")
+				box.Eval(context.Background(), types.List{Val: mkForm(pname)}, pe)
+			}
+		}()
 	}
 	var regPanic any
 	func() {
@@ -287,26 +360,16 @@ func check(c Case) pbt.Verdict {
 	}
 	wantEntered := inBounds && assignable
 
-	// --- the call, built from Go without positions ---
-	form := []types.MalType{types.Symbol{Val: name}}
-	for i, a := range c.Args {
-		if c.ArgFn[i] {
-			form = append(form, types.List{Val: []types.MalType{types.Symbol{Val: "fn"}, types.List{Val: []types.MalType{types.Symbol{Val: "x"}}}, types.Symbol{Val: "x"}}})
-			continue
-		}
-		switch a.K {
-		case val.Sym, val.List, val.Vec, val.Map:
-			form = append(form, types.List{Val: []types.MalType{types.Symbol{Val: "quote"}, val.To(a)}})
-		default:
-			form = append(form, val.To(a))
-		}
-	}
+	form := mkForm(name)
 	type planted struct{ s string }
 	ctx := context.WithValue(context.Background(), p.ctxKey, planted{"planted"})
 	p.reset(c.Mode)
 	r := box.Eval(ctx, types.List{Val: form}, e)
 	ents := p.entries()
 	desc := fmt.Sprintf("%s %s (package %s, registered as %q, bounds %v, mode %s) called with %d arguments %v", goName, ft, c.Pkg, name, c.Bounds, c.Mode, n, argKinds(c))
+	if len(c.Prior) > 0 {
+		desc += fmt.Sprintf(" after earlier registrations %+v", c.Prior)
+	}
 	if r.Panicked {
 		return pbt.Failf("panic:"+r.PanicSite, "%s: EVAL panicked: %v", desc, r.PanicVal)
 	}
@@ -322,6 +385,12 @@ func check(c Case) pbt.Verdict {
 			return pbt.Failf("not-entered-inside-contract", "%s: expected exactly one invocation, saw %d (error: %v)", desc, len(ents), r.Err)
 		}
 		en := ents[0]
+		if c.Fn < 0 && en.Fn != "closure:main" {
+			return pbt.Failf("wrong-function-invoked", "%s: the call reached %s, another instance of the function literal registered earlier", desc, en.Fn)
+		}
+		if c.Fn >= 0 && en.Fn != goName {
+			return pbt.Failf("wrong-function-invoked", "%s: the call reached %s", desc, en.Fn)
+		}
 		if len(en.Args) != n {
 			return pbt.Failf("wrong-arguments", "%s: received %d arguments", desc, len(en.Args))
 		}
@@ -471,6 +540,20 @@ func TestTable(t *testing.T) {
 							for i := 0; i < cnt; i++ {
 								c.Args = append(c.Args, argv)
 								c.ArgFn = append(c.ArgFn, false)
+							}
+							// first after the function was registered elsewhere under the neighbouring bounds (self-contained
+							// if registrations influence each other), then alone
+							for _, other := range boundsList[:len(boundsList)-2] {
+								if fmt.Sprint(other) == fmt.Sprint(b) {
+									continue
+								}
+								c2 := c
+								c2.Prior = []PriorReg{{Override: override, Bounds: other, Call: cnt%2 == 0}}
+								n++
+								if !pbt.RunOne(t, P, c2) {
+									return
+								}
+								break
 							}
 							n++
 							if !pbt.RunOne(t, P, c) {
